@@ -42,7 +42,7 @@ RULE += ' Relaxation scenarios may let 1100 or 5000 other inputs pass between th
 EXHAUSTIVE_NOTE = {"quick": "every built-in signature/pattern instance (22 membrane + 18 innate) x 4 renderings (plain, upper-cased, embedded, embedded after 300 characters) x every threshold (4 / 5): 680 cases, complete for that table; relaxation table: 5 literal rules x 3 thresholds x 4 ways of relaxing a learnt rule = 60 histories; overlap table: every multi-word built-in instance x 3 ways a stronger literal rule overlaps it x custom/learnt",
                    "thorough": "same table, complete"}
 
-BENIGN = ["hello", "please", "summarise", "the", "report", "for", "monday", "thanks", "42", "ok"]
+BENIGN = ["hello", "please", "summarise", "the", "report", "for", "monday", "thanks", "42", "ok", "forbidden", "Forbidden fruit"]
 SEPS = [" ", "\n", ". ", " - ", "\t"]
 LIT = ["secret sauce", "drop table", "launch codes", "rm -rf", "wire money"]
 REGEX = [r"x{2,4}y", r"(foo|bar)\s+baz", r"pw[0-9]{1,3}", r"k[aeiou]+t", r"tok_.*_end", r"[a-c]{3}-[0-9]"]
@@ -207,7 +207,7 @@ def _innate_case(draw):
     _mem, inn = _builtin_instances()
     pool = draw(_pool(1, 3))
     custom = [[p, draw(st.integers(1, 5))] for p in pool[:draw(st.integers(0, 2))]]
-    vals = draw(st.lists(st.sampled_from(["length", "charset", "json", "json-deep", "length-min"]), max_size=3))
+    vals = draw(st.lists(st.sampled_from(["length", "charset", "json", "json-deep", "length-min", "user-none", "user-empty", "user-message"]), max_size=3))
     ops = []
     for _ in range(draw(st.integers(1, 8))):
         k = draw(st.integers(0, 9))
@@ -216,7 +216,7 @@ def _innate_case(draw):
         elif k == 6:
             ops.append(["add_pattern", draw(st.sampled_from(pool)), draw(st.integers(1, 5))])
         elif k == 7:
-            ops.append(["add_validator", draw(st.sampled_from(["length", "charset", "json", "json-deep"]))])
+            ops.append(["add_validator", draw(st.sampled_from(["length", "charset", "json", "json-deep", "user-none", "user-empty", "user-message"]))])
         elif k == 8:
             ops.append(["reset"])
         else:
@@ -250,6 +250,10 @@ def enumerate_cases(tier):
         for text in (inst, _swap(inst, 1), "hello please " + inst + " . thanks", "the report for monday please summarise thanks ok " * 6 + inst + " ok"):
             for thr in range(4):
                 yield {"kind": "membrane", "threshold": thr, "adaptive": True, "rate": None, "custom": [], "ops": [["filter", text]]}
+    for vk in ("user-none", "user-empty", "user-message"):
+        for text in ("a forbidden request", "FORBIDDEN", "a harmless request"):
+            yield {"kind": "innate", "threshold": 3, "validators": [vk], "custom": [], "ops": [["check", text]]}
+            yield {"kind": "innate", "threshold": 3, "validators": ["length"], "custom": [], "ops": [["add_validator", vk], ["check", text]]}
     for inst in inn:
         for text in (inst, _swap(inst, 1), "hello please " + inst + " . thanks", "the report for monday please summarise thanks ok " * 6 + inst + " ok"):
             for thr in range(1, 6):
@@ -451,6 +455,8 @@ def _ref_validators(kinds, text):
             rej.append(k)
         elif k == "charset" and any((ord(c) < 32 and c not in "\t\n\r") for c in text):
             rej.append(k)
+        elif k in ("user-none", "user-empty", "user-message") and "forbidden" in text.lower():
+            rej.append(k)
         elif k in ("json", "json-deep"):
             limit = 10 if k == "json" else 3
             if len(text) > 100000:
@@ -491,6 +497,15 @@ def _innate(case, out, clock, mod):
             return mod.JSONValidator()
         if kind == "json-deep":
             return mod.JSONValidator(max_depth=3)
+        if kind in ("user-none", "user-empty", "user-message"):
+            # a user-written validator (the StructuralValidator protocol allows the message to be None): rejects texts containing "forbidden"
+            msg = {"user-none": None, "user-empty": "", "user-message": "forbidden word"}[kind]
+
+            class UserValidator:
+                def validate(self, content):
+                    return ("forbidden" not in content.lower(), msg)
+
+            return UserValidator()
         raise HarnessError(kind)
 
     vkinds = list(case["validators"]) or ["length", "charset"]     # the documented default set
